@@ -157,6 +157,11 @@ MUTANTS = [
      "x_samples = self.mu[None] + jnp.einsum(\"abc,dac->dab\", L, rand_nums)", "x_samples = self.mu[None] + jnp.einsum(\"acb,dac->dab\", L, rand_nums)"),
     ("m121-sample-second-key", "firing", ["C19"], P, "GaussianPDF.sample",
      "        rand_nums = jax.random.normal(key, (num_samples, self.R, self.D))", "        rand_nums = jax.random.normal(jax.random.PRNGKey(0), (num_samples, self.R, self.D))"),
+    ("m122-sample-flat-draw-reshaped", "silent", ["C19"], P, "",
+     "        rand_nums = jax.random.normal(key, (num_samples, self.R, self.D))", "        rand_nums = jax.random.normal(key, (num_samples, self.R * self.D)).reshape((num_samples, self.R, self.D))"),
+    ("m123-sample-shared-stream-vmap", "firing", ["C19"], P, "GaussianPDF.sample",
+     "        rand_nums = jax.random.normal(key, (num_samples, self.R, self.D))\n        L = jnp.linalg.cholesky(self.Sigma)\n        x_samples = self.mu[None] + jnp.einsum(\"abc,dac->dab\", L, rand_nums)\n",
+     "        L = jnp.linalg.cholesky(self.Sigma)\n\n        def sample_component(mu, L):\n            rand_nums = jax.random.normal(key, (num_samples, self.D))\n            return mu[None] + jnp.einsum(\"bc,dc->db\", L, rand_nums)\n\n        x_samples = jax.vmap(sample_component, out_axes=1)(self.mu, L)\n"),
     # ---------------- C20
     ("m130-indicator-one-sided", "firing", ["C20"], T, "TruncatedGaussianMeasure.__call__",
      "                jnp.logical_and(\n                    jnp.greater_equal(x[None], self.lower_limit[:, None]),\n                    jnp.less_equal(x[None], self.upper_limit[:, None]),\n                ),", "                jnp.logical_and(\n                    jnp.greater_equal(x[None], self.lower_limit[:, None]),\n                    jnp.greater_equal(x[None], self.lower_limit[:, None]),\n                ),"),
@@ -164,6 +169,21 @@ MUTANTS = [
      "        return (variance + mu**2) * self.integral()[:, None]", "        return (variance + mu**2) * self.integral()[:, None] * self.constant[:, None]"),
     ("m132-pdf-uses-unnormalised-base", "firing", ["C20"], T, "TruncatedGaussianPDF.__post_init__",
      "        self.measure = self.density\n", ""),
+    ("m133-moment-recursion-factor", "firing", ["C20"], T, "TruncatedGaussianMeasure._get_moment",
+     "            L_new = -(beta_pdf - alpha_pdf) / denominator + (k - 1) * L2", "            L_new = -(beta_pdf - alpha_pdf) / denominator + k * L2"),
+    ("m134-moment-recursion-carry-order", "firing", ["C20"], T, "TruncatedGaussianMeasure._get_moment",
+     "            return (L1, L_new), L_new", "            return (L_new, L1), L_new"),
+    ("m135-moment-order-zero-rows", "firing", ["C20"], T, "TruncatedGaussianMeasure._get_moment",
+     "        Ls = jnp.concatenate([L0[None], L1[None], Ls], axis=0)[: order + 1]", "        Ls = jnp.concatenate([L0[None], L1[None], Ls], axis=0)"),
+    ("m136-moment-binomial-exponents", "firing", ["C20"], T, "TruncatedGaussianMeasure._get_moment",
+     "                * self.density.mu.T ** (order - k_range)\n                * Ls,\n                axis=0,\n            )\n        moments = jnp.where", "                * self.density.mu.T ** k_range\n                * Ls,\n                axis=0,\n            )\n        moments = jnp.where"),
+    ("m137-moment-recursion-rewrite", "silent", ["C20"], T, "",
+     "            L_new = -(beta_pdf - alpha_pdf) / denominator + (k - 1) * L2", "            L_new = (alpha_pdf - beta_pdf) / denominator + L2 * (k - 1)"),
+    # ---------------- slices with non-default index semantics, dropped broadcast (from seeded changes of round 2)
+    ("m140-measure-slice-clip-cached", "firing", ["C12", "C04"], M, "GaussianMeasure.slice",
+     "        new_measure = GaussianMeasure(Lambda=Lambda_new, nu=nu_new, ln_beta=ln_beta_new)\n        if self.Sigma is not None:\n            new_measure.Sigma = jnp.take(self.Sigma, indices, axis=0)", "        new_measure = GaussianMeasure(Lambda=Lambda_new, nu=nu_new, ln_beta=ln_beta_new)\n        if self.Sigma is not None:\n            new_measure.Sigma = jnp.take(self.Sigma, indices, axis=0, mode=\"clip\")"),
+    ("m141-constant-hadamard-no-broadcast", "firing", ["C01", "C12"], F, "ConstantFactor._hadamard_with_measure",
+     "        # self.Lambda and self.nu are zero: adding them broadcasts a single-component measure to R components\n        Lambda_new = measure.Lambda + self.Lambda\n        nu_new = measure.nu + self.nu\n", "        # self.Lambda and self.nu are zero: adding them broadcasts a single-component measure to R components\n        Lambda_new = measure.Lambda + self.Lambda\n        nu_new = measure.nu\n"),
 ]
 
 
